@@ -105,7 +105,14 @@ fn run_generic<K: KeyT, V: ValT>(prop: Prop, spec: &RunSpec, want_transcript: bo
             if st.split {
                 out.nontrivial = true;
             }
-            out.states.push(state_key::<K>(&spec.cfg, op.kind(), st, hmode));
+            let mut key = state_key::<K>(&spec.cfg, op.kind(), st, hmode);
+            if matches!(op, Op::EqCheck { .. } | Op::SAlgebra { .. }) {
+                // two-collection observations: the pair of abstract states is the case
+                if let Some(st2) = so.after.as_ref() {
+                    key = splitmix64(key ^ abstract_state(st2).wrapping_mul(0xD6E8_FEB8_6659_FD93));
+                }
+            }
+            out.states.push(key);
         }
         if let Some(st) = so.after.as_ref() {
             if st.split {
@@ -115,23 +122,53 @@ fn run_generic<K: KeyT, V: ValT>(prop: Prop, spec: &RunSpec, want_transcript: bo
         let fam = family_of(op);
         let mut anomalies = so.anomalies;
         let fatal = so.fatal;
-        if !fatal && so.injected.is_none() {
+        if !fatal && so.injected.is_none() && prop != Prop::C17 {
             let every = spec.cfg.full_check_every.max(1) as usize;
             if i % every == 0 || i + 1 == spec.ops.len() {
                 anomalies.extend(w.check_contents(i, op.kind(), fam, true));
                 anomalies.extend(w.check_ledger(i, op.kind(), leak_check));
             }
         }
-        if so.injected.is_some() {
-            // an injected panic outside the fault-enumeration driver: the model is stale
-            *out.faults.entry("panic".to_string()).or_insert(0) += 1;
-            stopped = true;
+        if let Some((site, _)) = so.injected {
+            *out.faults.entry(format!("panic@{}", site.name())).or_insert(0) += 1;
+            if prop == Prop::C17 {
+                // the model is stale after an interrupted call: adopt what the collections hold
+                // (C07 judges that state; here only the two builds are compared) and go on
+                let interrupted_clone_from = matches!(op, Op::CloneFrom { .. } | Op::SCloneFrom { .. });
+                if let Err(e) = w.adopt_observed(interrupted_clone_from.then(|| op.clone())) {
+                    if let Some(t) = w.transcript.as_mut() {
+                        t.push(format!("adopt failed: {}", e));
+                    }
+                    stopped = true;
+                }
+            } else {
+                // an injected panic outside the fault-enumeration driver: the model is stale
+                stopped = true;
+            }
+        }
+        if let Some(t) = w.transcript.as_mut() {
+            let mut line = String::new();
+            for s in &w.maps {
+                let st = s.m.verif_state();
+                line.push_str(&format!(" m[len={} cap={} split={} old={} buckets={}]", s.m.len(), s.m.capacity(), st.split, st.old_len, st.main_buckets));
+            }
+            for s in &w.sets {
+                let st = s.s.verif_state();
+                line.push_str(&format!(" s[len={} cap={} split={} old={} buckets={}]", s.s.len(), s.s.capacity(), st.split, st.old_len, st.main_buckets));
+            }
+            t.push(line);
         }
         if absorb(prop, &mut out, anomalies, fatal) {
             stopped = true;
         }
         if stopped {
             break;
+        }
+    }
+    if w.transcript.is_some() && !stopped {
+        let fin = w.final_contents();
+        if let Some(t) = w.transcript.as_mut() {
+            t.push(fin);
         }
     }
     if let Some(t) = w.transcript.take() {
